@@ -3,7 +3,7 @@ C09 — committee selection is deterministic, exact-size, distinct and eligible.
 Model: Model/Sampling.lean over an arbitrary stream of 64-bit draws (the HMAC-DRBG stream is
 recomputed independently in Lean by the driver, Exec/Sha256.lean, and compared with Go).
 -/
-import BandVerif.Lemmas.Sampling
+import BandVerif.Lemmas.SamplingBest
 
 namespace C09
 open BandVerif.Sampling
@@ -40,6 +40,34 @@ theorem maxWeight_is_one_of_tries (ws : List Nat) (cnt tries : Nat) (rand : Nat 
   · exact Or.inl e
   · exact Or.inr ⟨⟨t, by omega, h3⟩, chooseSome_distinct_size ws cnt rand _ l h3⟩
 
+/-- PROPERTY ("best of N tries by total weight", and exact size without the empty-list escape): with positive weights
+    whose sum fits uint64, 1 ≤ cnt ≤ n and at least one try — the preconditions GetRandomValidators establishes —
+    ChooseSomeMaxWeight returns a full sample (exactly `cnt` distinct valid indexes), it is the sample of some try `t`, no
+    try has a larger weight sum, and every EARLIER try has a strictly smaller one (ties go to the first). -/
+theorem maxWeight_is_first_best_try (ws : List Nat) (cnt tries : Nat) (rand : Nat → Nat)
+    (hc1 : 0 < cnt) (hcnt : cnt ≤ ws.length) (hp : ∀ w ∈ ws, 0 < w) (hs : ws.sum < two64) (ht : 0 < tries) :
+    ∃ l t, chooseSomeMaxWeight ws cnt tries rand = some l ∧
+      l.length = cnt ∧ l.Nodup ∧ (∀ i ∈ l, i < ws.length) ∧
+      t < tries ∧ chooseSome cnt ws (List.range ws.length) rand (t * cnt) = some l ∧
+      (∀ t' l', t' < tries → chooseSome cnt ws (List.range ws.length) rand (t' * cnt) = some l' → weightSum ws l' ≤ weightSum ws l) ∧
+      (∀ t' l', t' < t → chooseSome cnt ws (List.range ws.length) rand (t' * cnt) = some l' → weightSum ws l' < weightSum ws l) := by
+  have tot : ∀ pos, ∃ l, chooseSome cnt ws (List.range ws.length) rand pos = some l :=
+    fun pos => chooseSome_never_panics ws cnt rand pos hcnt hp hs
+  obtain ⟨l, hl⟩ := maxWeightGo_total ws cnt rand tries 0 0 [] tot
+  obtain ⟨a1, _, a3⟩ := maxWeightGo_best ws cnt rand tries 0 0 [] l (by simp [weightSum]) hl
+  rcases a3 with e | ⟨t, _, b2, b3, _, b5⟩
+  · -- the empty list cannot survive: the first try already weighs more than 0
+    exfalso
+    obtain ⟨l0, h0⟩ := tot (0 * cnt)
+    have p0 := weightSum_pos ws cnt rand (0 * cnt) l0 hp hs hc1 h0
+    have := a1 0 l0 (Nat.le_refl _) (by omega) h0
+    subst e
+    have z : weightSum ws [] = 0 := by simp [weightSum]
+    omega
+  · obtain ⟨s1, s2, s3⟩ := chooseSome_distinct_size ws cnt rand _ l b3
+    exact ⟨l, t, hl, s1, s2, s3, by omega, b3, fun t' l' x y => a1 t' l' (Nat.zero_le _) (by omega) y,
+      fun t' l' x y => b5 t' l' (Nat.zero_le _) x y⟩
+
 /-- GetRandomMembers: an error exactly when the threshold exceeds the number of available members;
     otherwise exactly `threshold` distinct positions of the available list. -/
 theorem randomMembers_distinct (n threshold : Nat) (rand : Nat → Nat) :
@@ -66,6 +94,7 @@ theorem selection_is_function (ws ws' : List Nat) (cnt cnt' tries tries' : Nat) 
 example : chooseOne [3, 0, 5] 4 = some 2 := by decide
 example : chooseOne [0, 0] 4 = none := by decide
 example : chooseSome 2 [3, 1, 5] [0, 1, 2] (fun i => [4, 0].getD i 0) 0 = some [2, 0] := by decide
+example : (∀ w ∈ [3, 1, 5], 0 < w) ∧ [3, 1, 5].sum < two64 := by decide
 example : randomPositions 3 4 (fun _ => 0) = none := by decide
 example : randomPositions 3 2 (fun _ => 0) = some [0, 2] := by decide
 
